@@ -46,7 +46,7 @@ multilot_regex = re.compile(
     (
         # What comes between lots ('through', 'and', etc.). Captures named
         # groups 'through' and 'and' for those words or equivalent symbols.
-        ({intervener_regex.pattern})+   # IMPORTANT: Allow more than one intervener
+        ({intervener_regex.pattern})+\s*   # IMPORTANT: Allow more than one intervener
                                         # to keep matching multilots to the right!
 
         (?P<word_lot_rightmost>(L\.?|Lt\.?|Lot)    # The word or abbreviation "Lot" (optional on the right).
